@@ -43,6 +43,9 @@ type vEnv struct {
 	plugCloseErr bool
 	execStartT  int64
 	sawSignal bool
+	enabledFalse bool
+	stopReturned bool
+	stoppedBeforeStart bool
 	ignoreSignal bool // the plugin does not react to the cancel signal
 	closeFaults bool // Close() of the ATP client / the plugin may fail
 
